@@ -131,9 +131,9 @@ func libItoa(x *Exec, n *ast.CallExpr, recv *Val, recvExpr ast.Expr, st *State, 
 
 func libAtoi(x *Exec, n *ast.CallExpr, recv *Val, recvExpr ast.Expr, st *State, env *Env) Val {
 	v := x.eval(n.Args[0], st, env)
-	x.c.trusted["strconv.Atoi: uninterpreted with Atoi(Itoa n) = n; error result arbitrary"] = true
-	e := x.c.freshConst("err", sortErr)
-	return Val{Tuple: []Val{{T: app("gs.atoi", v.T), Ty: tInt}, {T: e, Ty: tError}}}
+	x.c.trusted["strconv.Atoi: value and error are uninterpreted functions of the argument, with Atoi(Itoa n) = n"] = true
+	x.c.declare("gs.atoierr", "(declare-fun gs.atoierr (Str) "+sortErr+")")
+	return Val{Tuple: []Val{{T: app("gs.atoi", v.T), Ty: tInt}, {T: app("gs.atoierr", v.T), Ty: tError}}}
 }
 
 func libFormatFloat(x *Exec, n *ast.CallExpr, recv *Val, recvExpr ast.Expr, st *State, env *Env) Val {
